@@ -144,6 +144,7 @@ fn main() {
             two_cut_limit: 96,
             three_cut_limit: 0,
             corrupt_seq: 2,
+            corrupt_one_cuts: false,
             trunc_seq: 2,
             recover_seq_narrow: 3,
             recover_seq_wide: 2,
@@ -155,9 +156,10 @@ fn main() {
             seq_narrow: 3,
             seq_wide: 2,
             extra_level: true,
-            two_cut_limit: 192,
-            three_cut_limit: 56,
+            two_cut_limit: 256,
+            three_cut_limit: 80,
             corrupt_seq: 2,
+            corrupt_one_cuts: true,
             trunc_seq: 3,
             recover_seq_narrow: 3,
             recover_seq_wide: 2,
@@ -220,7 +222,7 @@ fn main() {
     let mut b = common.clone();
     b["sequence_length"] = json!(p.corrupt_seq);
     b["substitutions"] = json!("tag bytes: all 255 other values; each byte of each length field: {0, b-1, b+1, 0xFF}");
-    b["feeds"] = json!("whole stream and byte-by-byte, then decode_eof");
+    b["feeds"] = json!(if p.corrupt_one_cuts { "whole stream, byte-by-byte, and (single messages) every 1-cut; then decode_eof" } else { "whole stream and byte-by-byte, then decode_eof" });
     b["corrupted_field_without_effect_same_messages_delivered"] = json!(acc.corrupt.stats.ignored);
     b["corrupted_stream_is_a_valid_other_stream"] = json!(acc.corrupt.stats.faithful);
     leg(
